@@ -150,7 +150,7 @@ func ParseResolve(text string, sys resolve.System) (*resolve.Graph, error) {
 	}
 
 	// Create edges.
-	sources := make([]resolve.NodeID, len(g.Nodes)+1)
+	sources := make([]resolve.NodeID, len(s.rows)+1)
 	for i, r := range s.rows {
 		// Record the current index as the source at this indentation level.
 		sources[r.depth] = nodes[i]
@@ -171,7 +171,7 @@ func ParseResolve(text string, sys resolve.System) (*resolve.Graph, error) {
 				Version:     r.requirement,
 			}
 			if err := g.AddError(src, vk, r.err); err != nil {
-				return nil, fmt.Errorf("cannot add an error to %s", g.Nodes[src].Version)
+				return nil, fmt.Errorf("cannot add an error to node %d: %w", src, err)
 			}
 			continue
 		}
@@ -182,7 +182,7 @@ func ParseResolve(text string, sys resolve.System) (*resolve.Graph, error) {
 		}
 
 		if err := g.AddEdge(src, dst, r.requirement, r.dt); err != nil {
-			return nil, fmt.Errorf("cannot create edge from %s to %s", g.Nodes[src].Version, g.Nodes[dst].Version)
+			return nil, fmt.Errorf("cannot create edge from node %d to node %d: %w", src, dst, err)
 		}
 	}
 
@@ -253,6 +253,9 @@ func parseResolve(text string) (*resolveSchema, error) {
 		switch items := strings.Split(tl, " "); len(items) {
 		case 1: // This is a labeled requirement or an error.
 			requirement := items[0]
+			if requirement == "" {
+				return nil, fmt.Errorf("line %d: expected a requirement", r.line)
+			}
 			if requirement[0] != '$' && r.err == "" {
 				return nil, fmt.Errorf("line %d: expected a label, got %q", r.line, requirement)
 			}
